@@ -154,7 +154,7 @@ def ilp_cases(draw):
         opts["weights"] = [draw(st.sampled_from([2, 3, 5, 10]))] * k
     elif wkind == "ints":
         opts["weights"] = draw(st.lists(st.integers(1, 10), min_size=k, max_size=k))
-    case = {"alg": "ilp", "values": values, "numbins": k, "pres": draw(st.sampled_from(["list", "list", "dict-str"])),
+    case = {"alg": "ilp", "values": values, "numbins": k, "pres": draw(st.sampled_from(["list", "list", "dict-str", "dict-int", "names-array"])),
             "nseed": draw(st.integers(0, 5)), "opts": opts}
     if draw(st.integers(0, 2)) > 0:
         # a constraint whose constant is taken from the attainable values (+-1), so feasible and infeasible are both common
